@@ -88,6 +88,7 @@ func (a *Act) execInstr(st *State, in ssa.Instruction, b *ssa.BasicBlock, incomi
 	case *ssa.Lookup:
 		a.regs[x] = a.lookup(st, x)
 	case *ssa.MapUpdate:
+		a.siteMapStore(st, x)
 		a.mapUpdate(st, a.val(st, x.Map), a.val(st, x.Key), a.val(st, x.Value), x.Pos())
 	case *ssa.MakeMap:
 		a.regs[x] = a.makeMap(st, x.Type())
@@ -984,4 +985,37 @@ func (a *Act) next(st *State, x *ssa.Next) Val {
 	val := Val{S: vv, Sort: it.valSort, T: it.vt}
 	a.refFacts(st, val)
 	return Val{Tup: []Val{{S: ok, Sort: sBool, T: types.Typ[types.Bool]}, {S: k, Sort: ks, T: it.kt}, val}, Sort: "Tuple", T: x.Type()}
+}
+
+// siteMapStore checks the contract's "site mapstore <local>" assertions at a store into that local map.
+func (a *Act) siteMapStore(st *State, x *ssa.MapUpdate) {
+	if a.con == nil || a.inlined || len(a.con.Sites) == 0 || a.vc.quiet > 0 {
+		return
+	}
+	mv := a.val(st, x.Map)
+	for _, c := range a.con.Sites {
+		if c.Kind != "site-mapstore" {
+			continue
+		}
+		env := a.specEnv(st)
+		lv, ok := env.localVarQuiet(c.LoopFn)
+		if !ok || lv.S == "" || lv.S != mv.S {
+			continue
+		}
+		a.siteN++
+		name := fmt.Sprintf("%s/site mapstore %s#%d", a.prefix, c.LoopFn, a.siteN)
+		if c.Label != "" {
+			name = fmt.Sprintf("%s/site mapstore %s.%s#%d", a.prefix, c.LoopFn, c.Label, a.siteN)
+		}
+		v, err := env.evalBool(c.Expr)
+		n0 := len(a.vc.obls)
+		if err != nil {
+			a.vc.oblige(name, "site", a.props, c.Line, st.guard, "false", "contract error: "+err.Error()+" in: "+c.Text)
+		} else {
+			a.vc.oblige(name, "site", a.props, a.pos(x.Pos())+" ["+c.Line+"]", st.guard, v, "at every store into "+c.LoopFn+": "+c.Text)
+		}
+		if len(a.vc.obls) > n0 && len(c.Props) > 0 {
+			a.vc.obls[len(a.vc.obls)-1].OnlyProps = c.Props
+		}
+	}
 }
